@@ -294,7 +294,8 @@ def compare_doc(target: str, spec: Spec, item: Dict[str, Any], py: Dict[str, Any
         cause = tag
         if py.get("foreign"):
             cause = f"{tag}:python-raises-{py['foreign']}"
-        elif pok and tag.startswith("modelType-added"):
+        elif pok and (tag.startswith("modelType-added")
+                      or re.search(r"nexpected (additional )?property: modelType", str(tg.get("msg", "")))):
             # the reference ignores a "modelType" property on a class that is serialised without one
             cause = "modelType-on-class-without-model-type"
         elif not pok and str(py.get("msg", "")).startswith("Unexpected property"):
